@@ -83,6 +83,8 @@ class SchedStream(Stream):
             return "sched:C20:double-launch-after-crash"
         if "custom output(s) lost by the crash" in failure:
             return "sched:C20:uncommitted-custom-output-lost"
+        if "besides an absolute trigger (satisfied) all their parents are pre-initial" in failure:
+            return "sched:C01:abs-plus-pre-initial-dependent-never-spawned"
         if "processed in the same main-loop iteration still found its outputs" in failure:
             return "sched:C30:set-after-remove-in-one-iteration-sees-erased-history"
         if "the restart re-applied the hold point to the reloaded pool and holds it again" in failure:
